@@ -67,6 +67,8 @@ mod error;
 mod regret;
 mod solve;
 mod split;
+#[cfg(feature = "verif")]
+pub mod verif;
 
 use compact::{Builder, OptBuilder};
 pub use error::{GameError, SolveError, StratError};
@@ -361,6 +363,18 @@ struct PlayerInfosetData<I, A> {
     infoset: I,
     actions: Box<[A]>,
     prev_infoset: Option<usize>,
+    #[cfg(feature = "verif")]
+    prev_action: Option<usize>,
+}
+
+#[cfg(feature = "verif")]
+impl<I, A> PlayerInfosetData<I, A> {
+    fn verif_prev(&self) -> String {
+        match (self.prev_infoset, self.prev_action) {
+            (Some(info), Some(act)) => format!("{} {}", info, act),
+            _ => "- -".to_string(),
+        }
+    }
 }
 
 impl<I, A> PlayerInfosetData<I, A> {
@@ -369,6 +383,8 @@ impl<I, A> PlayerInfosetData<I, A> {
             infoset,
             actions: builder.actions,
             prev_infoset: builder.prev.map(|(info, _)| info),
+            #[cfg(feature = "verif")]
+            prev_action: builder.prev.map(|(_, act)| act),
         }
     }
 
